@@ -141,18 +141,26 @@ class Result:
 def discharge_text(text: str, want: list[str], z3_ms: int | None = None, cvc5_ms: int | None = None) -> Result:
 	z3_ms = z3_ms or Z3_TIMEOUT_MS
 	cvc5_ms = cvc5_ms if cvc5_ms is not None else CVC5_TIMEOUT_MS
-	# stage 1: z3 with a short budget (most obligations take milliseconds); stage 2: cvc5; stage 3: z3 with the full budget
-	v, dt, model, detail = _z3_run(text, want, min(z3_ms, Z3_FIRST_MS))
+	stringy = ('str.' in text) or ('seq.' in text)
+	if cvc5_ms < 0:
+		v, dt, model, detail = _z3_run(text, want, z3_ms)
+		if v == 'unsat':
+			return Result('proved', 'z3', dt)
+		if v == 'sat':
+			return Result('refuted', 'z3', dt, model, detail)
+		return Result('unknown', 'z3', dt, None, f'z3: {v} {detail}', tried=['z3:' + v])
+	# stage 1: a short z3 attempt (most obligations take milliseconds); stage 2: cvc5 (decides most string/sequence goals z3 leaves open);
+	# stage 3: z3 with the full budget.  For string-heavy queries the first z3 attempt is cut even shorter.
+	first = min(z3_ms, 800 if stringy else Z3_FIRST_MS)
+	v, dt, model, detail = _z3_run(text, want, first)
 	if v == 'unsat':
 		return Result('proved', 'z3', dt)
 	if v == 'sat':
 		return Result('refuted', 'z3', dt, model, detail)
-	if cvc5_ms < 0:
-		return Result('unknown', 'z3', dt, None, f'z3: {v} {detail}', tried=['z3:' + v])
 	v2, dt2, detail2 = _cvc5_run(text, cvc5_ms)
 	if v2 == 'unsat':
 		return Result('proved', 'cvc5', dt + dt2, tried=['z3:' + v])
-	if v2 != 'sat' and z3_ms > Z3_FIRST_MS:
+	if v2 != 'sat' and z3_ms > first:
 		v, dt3, model, detail = _z3_run(text, want, z3_ms)
 		dt += dt3
 		if v == 'unsat':
@@ -160,11 +168,7 @@ def discharge_text(text: str, want: list[str], z3_ms: int | None = None, cvc5_ms
 		if v == 'sat':
 			return Result('refuted', 'z3', dt + dt2, model, detail)
 	if v2 == 'sat':
-		# cvc5 says sat but gives us no model through this path; ask z3 once more with a longer budget for a model
-		v3, dt3, model3, detail3 = _z3_run(text, want, z3_ms * 3)
-		if v3 == 'sat':
-			return Result('refuted', 'cvc5+z3', dt + dt2 + dt3, model3, detail3)
-		return Result('refuted', 'cvc5', dt + dt2 + dt3, None, 'cvc5: sat (no model extracted)')
+		return Result('refuted', 'cvc5', dt + dt2, None, 'cvc5: sat (no model extracted)')
 	return Result('unknown', 'z3+cvc5', dt + dt2, None, f'z3: {v} {detail}; cvc5: {v2} {detail2}', tried=['z3:' + v, 'cvc5:' + v2])
 
 
